@@ -142,19 +142,23 @@ def check_floyd_paths(acc, W, transform, cls, part):
                      'unreachable_pair': bool(np.any(~reachable))})
 
 
-def floyd_all_transforms(acc, Lw, cls, part):
+def floyd_all_transforms(acc, Lw, cls, part, variants=('none', 'inv', 'log0', 'log')):
     """Lw: lengths (0 = no connection, positive integers otherwise)."""
     nz = Lw != 0
-    check_floyd_paths(acc, Lw, None, cls, part)
-    Winv = np.zeros_like(Lw)
-    Winv[nz] = 1.0 / Lw[nz]
-    check_floyd_paths(acc, Winv, 'inv', cls, part)
-    Wlog = np.zeros_like(Lw)
-    Wlog[nz] = 2.0 ** (1.0 - Lw[nz])                   # lengths 1,2,3 -> weights 1, .5, .25 -> log-lengths 0, ln2, 2 ln2 (exact ties, zero length)
-    check_floyd_paths(acc, Wlog, 'log', cls, part)
-    Wlog2 = np.zeros_like(Lw)
-    Wlog2[nz] = 2.0 ** (-Lw[nz])                       # weights .5, .25, .125 -> positive log-lengths with exact ties
-    check_floyd_paths(acc, Wlog2, 'log', cls, part)
+    if 'none' in variants:
+        check_floyd_paths(acc, Lw, None, cls, part)
+    if 'inv' in variants:
+        Winv = np.zeros_like(Lw)
+        Winv[nz] = 1.0 / Lw[nz]
+        check_floyd_paths(acc, Winv, 'inv', cls, part)
+    if 'log0' in variants:
+        Wlog = np.zeros_like(Lw)
+        Wlog[nz] = 2.0 ** (1.0 - Lw[nz])               # lengths 1,2,3 -> weights 1, .5, .25 -> log-lengths 0, ln2, 2 ln2 (exact ties, zero length)
+        check_floyd_paths(acc, Wlog, 'log', cls, part)
+    if 'log' in variants:
+        Wlog2 = np.zeros_like(Lw)
+        Wlog2[nz] = 2.0 ** (-Lw[nz])                   # weights .5, .25, .125 -> positive log-lengths that tie over the reals
+        check_floyd_paths(acc, Wlog2, 'log', cls, part)
 
 
 # ---- part 2 ---------------------------------------------------------------------------------------------------------------
@@ -259,10 +263,10 @@ def worker(task):
     acc = Acc()
     stats = {'nonterminating': 0, 'first_loop': None}
     if kind == 'exh':
-        _, cls, n, values, idxs = task
+        _, cls, n, values, idxs, variants = task
         for idx in idxs:
             Lw = O.weighted_from_index(cls, n, values, idx)
-            floyd_all_transforms(acc, Lw, cls, 'exh')
+            floyd_all_transforms(acc, Lw, cls, 'exh', variants)
     elif kind == 'pal':
         _, cls, n, bitlist, seed = task
         rng = np.random.RandomState(seed)
@@ -293,11 +297,11 @@ def worker(task):
             check_floyd_paths(acc, W, 'log', cls, 'rand')
             check_floyd_paths(acc, W, 'inv', cls, 'rand')
     elif kind == 'nav':
-        _, cls, n, values, idxs, seed = task
+        _, cls, n, values, idxs, seed, nD = task
         rng = np.random.RandomState(seed)
         for idx in idxs:
             L = O.weighted_from_index(cls, n, values, idx)
-            for D in _nodal_distances(rng, n):
+            for D in _nodal_distances(rng, n)[:nD]:
                 for mh in (None, 1, 2):
                     check_navigation(acc, L, D, mh, cls, 'nav', stats)
     elif kind == 'navrand':
@@ -330,7 +334,7 @@ def run_bounded(run, tier, seed):
         npairs = n * (n - 1) // (2 if cls == 'und' else 1)
         total = len(values) ** npairs
         for c in ch(list(range(total)), 32 if total < 100000 else 256):
-            tasks.append(('exh', cls, n, values, c))
+            tasks.append(('exh', cls, n, values, c, ('none', 'inv', 'log0', 'log') if total < 100000 else ('none', 'log0')))
     for cls, n in pal:
         nb = G.n_und(n) if cls == 'und' else G.n_dir(n)
         for x, c in enumerate(ch(list(range(nb)), 32)):
@@ -338,7 +342,8 @@ def run_bounded(run, tier, seed):
     run.bounded_part('floyd-retrieve-small-scope',
                      bounds={'all length assignments': '; '.join('%s n=%d lengths %r (0 = no connection)' % e for e in exh),
                              'lengths {1,2,3} (sampled)': '; '.join('all labelled %s graphs n=%d x (by-position palette (1,2,3) + one random assignment)' % e for e in pal),
-                             'transforms': "None on L; 'inv' on 1/L; 'log' on 2^(1-L) (weights 1,.5,.25: zero-length connections, exact ties) and on 2^-L",
+                             'transforms': "None on L; 'inv' on 1/L; 'log' on 2^(1-L) (weights 1,.5,.25: zero-length connections, exact ties) and on 2^-L"
+                                           + (" (dir n=4 all assignments: None and 'log' on 2^(1-L) only)" if thorough else ''),
                              'pairs': 'every ordered pair s != t'},
                      rule='one case = (matrix, transform) with distance_wei_floyd + FloydConsistent + retrieve_shortest_path for all (s,t); non-trivial = some retrieved path has >= 2 edges; distinct by (class, transform, n, matrix bytes)',
                      exhaustive=True)
@@ -359,10 +364,11 @@ def run_bounded(run, tier, seed):
         npairs = n * (n - 1) // (2 if cls == 'und' else 1)
         total = len(values) ** npairs
         for x, c in enumerate(ch(list(range(total)), 32 if total < 20000 else 128)):
-            tasks.append(('nav', cls, n, values, c, seed * 2003 + x + 7 * n))
+            tasks.append(('nav', cls, n, values, c, seed * 2003 + x + 7 * n, 4 if total < 20000 else 2))
     run.bounded_part('navigation-small-scope',
                      bounds={'L': '; '.join('%s n=%d lengths %r (0 = no connection)' % e for e in nav),
-                             'D': '4 symmetric nodal distance matrices per L: random real, random {1,2} (ties), all equal, |position difference| of a random line layout',
+                             'D': '4 symmetric nodal distance matrices per L: random real, random {1,2} (ties), all equal, |position difference| of a random line layout'
+                                  + (' (und n=5: the first two)' if thorough else ''),
                              'max_hops': [None, 1, 2]},
                      rule='one case = (L, D, max_hops); all ordered pairs checked; non-trivial = some successful navigation path has >= 2 edges; runs that exceed the step cap (non-termination on directed input) are skipped and counted in notes',
                      exhaustive=False)
